@@ -5,6 +5,7 @@ import (
 	"encoding/json"
 	"errors"
 	"fmt"
+	"golang.org/x/text/unicode/norm"
 	"math"
 	"reflect"
 	"strconv"
@@ -144,7 +145,8 @@ func UnmarshalValue(span herrors.Span, self interface{}) (*Value, *VmInterrupt) 
 			if err != nil {
 				return nil, err
 			}
-			fields[key] = value
+			// keys are strings of the language: normalised like every string value (`keys()` hands them out as such)
+			fields[norm.NFC.String(key)] = value
 		}
 		return NewValueObject(fields), nil
 	case []interface{}:
